@@ -430,6 +430,8 @@ pub fn generate(rng: &mut Rng, focus: &str, thorough: bool) -> Case {
             let j = rng.usize(0, trace.len() - 1);
             trace[j].1 = -*rng.pick(&[0.01, 0.5, 3.0]);
         }
+        // ... including its very first sample
+        let v0 = if rng.chance(0.015) { -*rng.pick(&[0.01, 0.5, 3.0]) } else { v0 };
         Kind::SetSpeed { v0, trace, shipped_walk: rng.chance(0.4) }
     } else {
         let dt = *rng.pick(&[1.0, 1.0, 1.0, 0.5, 2.0]);
@@ -1023,11 +1025,14 @@ fn check_set_speed(ctx: &mut Ctx, tr: &Traj, v0: f64, trace: &[(f64, f64)], t0: 
         // clips from published consist state only
         let c = &tr.con[k];
         let cprev = if k == 1 { con0 } else { &tr.con[k - 1] };
-        let pos_max = c.pwr_out_max.value.min((a.pwr_whl_out.value + c.pwr_rate_out_max.value * a.dt.value).max(0.0));
+        // ramp allowance over THIS step (the trace's own dt), not over the previous one
+        let pos_max = c.pwr_out_max.value.min((a.pwr_whl_out.value + c.pwr_rate_out_max.value * dt).max(0.0));
+        let pos_max_stale_dt = c.pwr_out_max.value.min((a.pwr_whl_out.value + c.pwr_rate_out_max.value * a.dt.value).max(0.0));
         let neg_max = cprev.pwr_dyn_brake_max.value.max(0.0);
         let want = (accel + pres).max(-neg_max).min(pos_max);
         if !close(b.pwr_whl_out.value, want, 1e-9, 1e-6, sc) {
-            ctx.violate("C14", "set_speed", "wheel power = inertia + resistance, clipped only to the published limits", format!("step {k}: pwr_whl_out {} vs clip({} , -{neg_max}, {pos_max}) = {want}", b.pwr_whl_out.value, accel + pres));
+            let stale = close(b.pwr_whl_out.value, (accel + pres).max(-neg_max).min(pos_max_stale_dt), 1e-9, 1e-6, sc);
+            ctx.violate_sig("C14", "set_speed", "wheel power = inertia + resistance, clipped only to the published limits", format!("step {k}: pwr_whl_out {} vs clip({} , -{neg_max}, {pos_max}) = {want} (dt {dt}, previous dt {}; equals the clip with the PREVIOUS step's dt: {stale})", b.pwr_whl_out.value, accel + pres, a.dt.value), sig1("ramp_allowance_uses_previous_dt", stale));
         }
         if want == pos_max && accel + pres > pos_max {
             ctx.hit("probe.set_speed.upper_clip_binds");
@@ -1199,6 +1204,13 @@ pub fn execute(case: &Case, ctx: &mut Ctx) {
                 ctx.hit_dyn(format!("note.setspeed_err: {}", first(e).chars().take(70).collect::<String>()));
                 ctx.hit("stat.runs_ended_with_err");
             }
+            if *v0 < 0.0 {
+                ctx.hit("fault.trace.negative_first_speed");
+                let executed = sim.state.i.saturating_sub(1);
+                if err.is_none() || executed > 0 {
+                    ctx.violate("C14", "set_speed", "a trace containing a negative speed is rejected", format!("first trace sample = {v0} m/s: run {} after {executed} executed steps", if err.is_none() { "ended Ok" } else { "failed only" }));
+                }
+            }
             if let Some(j) = trace.iter().position(|x| x.1 < 0.0) {
                 ctx.hit("fault.trace.negative_speed");
                 // the step that would adopt trace entry j is step number j + 1 (state.i counts from 1)
@@ -1206,7 +1218,8 @@ pub fn execute(case: &Case, ctx: &mut Ctx) {
                 if err.is_none() || executed > j {
                     ctx.violate("C14", "set_speed", "a trace containing a negative speed is rejected", format!("trace[{j}] = {} m/s: run {} after {executed} executed steps", trace[j].1, if err.is_none() { "ended Ok" } else { "failed only" }));
                 }
-                if tr.states.iter().any(|s| s.speed.value < 0.0) {
+                // (states[0] is the initial state the case supplied, not something the run produced)
+                if tr.states.iter().skip(1).any(|s| s.speed.value < 0.0) {
                     ctx.violate("C14", "set_speed", "a trace containing a negative speed is rejected", "a state with negative speed was recorded".into());
                 }
             }
